@@ -1,9 +1,9 @@
 (* C20 - The Rust embedding API mirrors the Lisp semantics.                  *)
-(* Statements only; the proofs are in Proofs/Heap.v.  The model of the API is  *)
+(* Statements only; the proofs are in Proofs/Heap.v, Proofs/Build.v and Proofs/Seq.v.  The model of the API is  *)
 (* Model/Api.v: objects are mutable cells with identity in a heap, registers    *)
 (* hold object handles, symbols have binding stacks of handles.                 *)
 From TL Require Import Base.Base Model.Reader Model.Printer Model.Api.
-From TL Require Import Proofs.Heap.
+From TL Require Import Proofs.Heap Proofs.Build Proofs.Seq.
 Local Open Scope list_scope.
 
 (* symbol operations (set, set_scope, unset, get, boundp) on an ordinary       *)
@@ -57,6 +57,37 @@ Theorem C20_unrelated_objects_unchanged : forall fuel h h' n w i,
   written_one n w h h' -> avoids fuel h n w i = true -> abs fuel h' i = abs fuel h i.
 Proof. exact abs_unchanged. Qed.
 
+(* THE SEQUENCE MODEL.  [lrep h i l]: object i is a proper list whose elements are *)
+(* the objects l, in order (Proofs/Seq.v).  On every well-formed heap (no entry      *)
+(* beyond the allocation pointer), for lists of every length:                          *)
+(* cons puts one element in front; car / cdr take it off again;                        *)
+Theorem C20_cons_is_cons : forall h a d l, wfh h -> lrep h d l ->
+  lrep (fst (halloc h (HCons a d))) (hnext h) (a :: l).
+Proof. exact cons_is_cons. Qed.
+Theorem C20_car_cdr_of_cons : forall h i a l, lrep h i (a :: l) ->
+  h_car h i = Ok (h, a) /\ exists d, h_cdr h i = Ok (h, d) /\ lrep h d l.
+Proof. exact car_cdr_of_cons. Qed.
+(* push appends exactly one element at the end, whatever the length;                   *)
+Theorem C20_push_appends : forall h a v l h', wfh h -> lrep h a l -> h_push h a v = Ok h' ->
+  lrep h' a (l ++ [v]) /\ wfh h'.
+Proof. exact push_appends. Qed.
+(* append concatenates: the destination's elements, then the argument's elements - the *)
+(* same objects, or for cons elements new head cells with the contents they had when    *)
+(* the argument was copied (heap h1: nothing older than the call was written);          *)
+Theorem C20_append_concatenates : forall h a v l1 l2 h', wfh h -> lrep h a l1 -> lrep h v l2 ->
+  h_append h a v = Ok h' ->
+  exists h1 l2', same_below (hnext h) h h1 /\ Forall2 (ecopy h1) l2 l2' /\
+                 lrep h' a (l1 ++ l2') /\ wfh h'.
+Proof. exact append_concatenates. Qed.
+(* deep_copy yields a list of the same elements on a new spine.                        *)
+Theorem C20_deep_copy_same_elements : forall h v l2 h1 c, wfh h -> lrep h v l2 ->
+  h_deep_copy h v = Ok (h1, c) ->
+  exists l2', lrep h1 c l2' /\ Forall2 (ecopy h1) l2 l2' /\ (hnext h <= c)%positive.
+Proof. exact deep_copy_seq. Qed.
+Print Assumptions C20_cons_is_cons. Print Assumptions C20_car_cdr_of_cons.
+Print Assumptions C20_push_appends. Print Assumptions C20_append_concatenates.
+Print Assumptions C20_deep_copy_same_elements.
+
 Print Assumptions C20_symbol_api_is_a_stack. Print Assumptions C20_constant_symbol_rejects.
 Print Assumptions C20_int_roundtrip. Print Assumptions C20_string_roundtrip.
 Print Assumptions C20_wrong_type_rejected. Print Assumptions C20_deep_copy_is_fresh.
@@ -76,6 +107,23 @@ Example C20_ex :
      RVal (of_list [Int 1; Int 2] Nil); RVal (of_list [Int 1] Nil);
      RUnit; RUnit; RUnit; RVal (of_list [Int 1; Int 2; Int 3] Nil)].
 Proof. vm_compute. reflexivity. Qed.
+
+(* non-vacuity of the sequence model: a well-formed heap holding the list (1 2) *)
+Definition hq : heap :=   (* 1: 1   2: 2   3: nil   4: (2)   5: (1 2) *)
+  let h0 := {| cells := PositiveMap.empty hval; hnext := 1%positive |} in
+  let h := fst (halloc h0 (HInt 1)) in let h := fst (halloc h (HInt 2)) in
+  let h := fst (halloc h HNil) in let h := fst (halloc h (HCons 2 3)) in
+  fst (halloc h (HCons 1 4)).
+Example C20_seq_ex : wfh hq /\ lrep hq 5%positive [1; 2]%positive /\
+  match h_push hq 5%positive 1%positive with
+  | Ok h' => abs 9 h' 5%positive = Some (of_list [Int 1; Int 2; Int 1] Nil)
+  | _ => False
+  end.
+Proof.
+  split; [unfold hq; repeat apply wfh_alloc; intros c _; apply PositiveMap.gempty|].
+  split; [|vm_compute; reflexivity].
+  eapply lrep_cons; [reflexivity|]. eapply lrep_cons; [reflexivity|]. apply lrep_nil; reflexivity.
+Qed.
 
 Check C20_append_writes_one_cell : forall h a v h',
   h_append h a v = Ok h' -> exists w, written_one (hnext h) w h h'.
